@@ -12,7 +12,9 @@
   server acknowledges a put only after storing it and then serves it to any requester (C03/C04 on
   the shared `Server` model; restated here for the immutable case), a reader yields exactly the
   authentic values it receives (C02), a lookup queries each of its 20 closest candidates (C07) in
-  the C11 order.  MISSING: the convergence argument that the reader's candidate list reaches an
+  the C11 order.  (3) for honest loss-free networks of at
+  most 20 nodes the value IS found (`small_network_value_found_partial`, on the lookup's history).
+  MISSING: the convergence argument for larger networks, that the reader's candidate list reaches an
   acknowledging node in every honest network (Kademlia's routing invariant over the *union* of the
   nodes' tables) — observed by the `mnet` stream on real networks of 2..24 nodes with crashes, and
   on the multi-node model through the correspondence, but not proved.
@@ -20,6 +22,7 @@
 import MainlineModel.Model.Net
 import MainlineModel.Props.C06
 import MainlineModel.Props.C03
+import MainlineModel.Props.C07
 namespace Mainline.Props.C01
 open Mainline Mainline.Actor
 
@@ -126,5 +129,26 @@ theorem honest_answer_is_yielded_partial (verify : Verify) (q : IterQuery) (i : 
     (ns : Option (List Node)) (v : Bytes) (h : hashImmutable v = q.target.bytes) :
     (queryValue verify q (.response (.getImmutable i tok ns v))).1 = some (.immutable v) := by
   simp [queryValue, h]
+
+
+/-! ### (3) networks of up to 20 nodes: the value is found -/
+
+/-- **Put-then-get completeness for honest loss-free networks of at most 20 nodes, on the lookup's
+    history** (proved in `Props/C07.lean`): if a live node holding the value can be reached, through
+    the servers' answers, from any address the reader's lookup queried, the lookup queries it and its
+    answer hands the value to the reader's callers.  `_partial`: larger networks need Kademlia's
+    routing argument over the union of the nodes' tables; that the actor applies exactly the
+    operations of `C07.lrun` is checked by the correspondence streams. -/
+theorem small_network_value_found_partial (U : Id → Addr → Prop) (hU : C07.Honest U) (univ : List Id)
+    (huniv : ∀ i a, U i a → i ∈ univ) (hsmall : univ.length ≤ Constants.K)
+    (q0 : IterQuery) (h0 : C07.CandOk U q0) (ops : List C07.LOp) (hops : C07.AllIn U (C07.listed ops))
+    (hcl : C07.Closed (C07.lrun q0 ops)) (answers : Addr → Option (List Node))
+    (hloss : C07.LossFree answers q0 ops)
+    (holder : Addr) (v : Bytes) (hhash : hashImmutable v = q0.target.bytes)
+    (hreach : ∃ a ∈ (C07.lrun q0 ops).visited, C07.Reaches answers a holder)
+    (hserves : holder ∈ (C07.lrun q0 ops).visited →
+      ∃ env m i tok ns, C07.LOp.msg env holder m ∈ ops ∧ m.mtype = .response (.getImmutable i tok ns v)) :
+    holder ∈ (C07.lrun q0 ops).visited ∧ Value.immutable v ∈ C07.lemits q0 ops :=
+  C07.small_network_value_found U hU univ huniv hsmall q0 h0 ops hops hcl answers hloss holder v hhash hreach hserves
 
 end Mainline.Props.C01
